@@ -61,7 +61,7 @@ NOISE = {"default", "new", "from_cbor_value", "from_cbor_value_depth", "next", "
 
 def guard_summary(o):
     """what the innermost condition of an error site tests: '@len', '@is_empty', '@<callees>' or ''"""
-    conds = [c for c in o["conds"] if not (c[0][0] == "discr" and is_call(c[0][1], "core::ops::Try::branch"))]
+    conds = [c for c in o["conds"] if not (c[0][0] == "discr" and is_call(c[0][1], "core::ops::try_trait::Try::branch"))]
     if not conds:
         return ""
     last = conds[-1][0]
